@@ -298,13 +298,39 @@ func cmdReplay(args []string) int {
 	}
 	src, _ := rec["replay_test"].(string)
 	fn, _ := rec["function"].(string)
+	kind, _ := rec["kind"].(string)
 	if src == "" {
 		fmt.Println("replay file carries no generated test (no-failing-input-found); solver output:")
 		fmt.Println(rec["solver_output"])
 		return 1
 	}
-	ok, out := runReplayTest("/repo", pkgOfKey(fn), src)
+	db, err := LoadContracts("/repo", "/verif/assumed")
+	if err != nil {
+		fmt.Fprintln(os.Stderr, err)
+		return 2
+	}
+	ld, err := Load("/repo", []string{pkgOfKey(fn)}, nil)
+	if err != nil {
+		fmt.Fprintln(os.Stderr, err)
+		return 2
+	}
+	if ld.funcs[fn] == nil || db.Funcs[fn] == nil {
+		fmt.Println("function or contract no longer exists:", fn)
+		return 2
+	}
+	x, err := VerifyFunction(ld, db, ld.funcs[fn], db.Funcs[fn])
+	if err != nil {
+		fmt.Fprintln(os.Stderr, err)
+		return 2
+	}
+	ran, out := runReplayTest("/repo", pkgOfKey(fn), src)
 	fmt.Println(out)
+	if !ran {
+		fmt.Println("replay: test did not run")
+		return 2
+	}
+	ok, detail := x.judgeReplay(&oblResult{q: &Query{Ob: &Obligation{Kind: kind}}}, out)
+	fmt.Println(detail)
 	if ok {
 		fmt.Println("replay: violation reproduced on the current tree")
 		return 1
